@@ -385,6 +385,20 @@ func TestEnumBytes(t *testing.T) {
 		total += n
 		mu.Unlock()
 	})
+	// characters of two, three and four bytes, one per lead byte class and at the edges of the
+	// ranges (the writers decide on the first byte whether a token may stand bare: 0xEF is also
+	// how a byte order mark starts)
+	for _, r := range []rune{0x80, 0xE9, 0x7FF, 0x800, 0xFFF, 0x1000, 0x2000, 0x2028, 0x2029, 0x3042, 0xD7FF, 0xE000, 0xEFFF, 0xF000, 0xF015, 0xFB01, 0xFEFE, 0xFEFF, 0xFF00, 0xFF21, 0xFFFD, 0xFFFE, 0xFFFF, 0x10000, 0x1F600, 0x10FFFF} {
+		ch := string(r)
+		for _, s := range []string{ch, ch + ch + ch, ch + "sh", "a" + ch, ch + "home_page", ch + " x", ch + "1"} {
+			for _, shape := range []any{s, []any{s}, []any{s, s, int64(1)}, map[string]any{s: int64(1)}, map[string]any{"k": s}} {
+				for _, o := range opts {
+					vrt.Eval(suite, "roundtrip", Case{Tree: wx.Enc(shape), Opt: o}, Run)
+					total++
+				}
+			}
+		}
+	}
 	// the SEN-significant spelling pool
 	for _, s := range gx.HostileStrings {
 		for _, shape := range []any{s, []any{s, s}, map[string]any{s: s}, map[string]any{"k": []any{s}, s: map[string]any{s: int64(2)}}} {
@@ -395,7 +409,7 @@ func TestEnumBytes(t *testing.T) {
 		}
 	}
 	suite.AddExtra("enum_cases", int64(total))
-	suite.Extra("enum_exhaustive_over", "256 byte values x 10 placements x 6 shapes x 3 layouts; hostile spelling pool x 4 shapes x 3 layouts")
+	suite.Extra("enum_exhaustive_over", "256 byte values x 10 placements x 6 shapes x 3 layouts; 26 characters of 2-4 bytes (one per lead byte class, range edges, U+FEFF and its neighbours) x 7 placements x 5 shapes x 3 layouts; hostile spelling pool x 4 shapes x 3 layouts")
 }
 
 func drawCase(t *rapid.T) Case {
